@@ -105,6 +105,27 @@ def seeded_pipeline(seed, kind, n):
     if kind == 'reshuffle_self_concat':
         x = base.shuffle(reshuffle=True, rng=rs).map(lambda v: v)
         return lazy_dataset.concatenate(x, x, x)
+    if kind.startswith('via_'):
+        # a per-epoch reshuffle below each kind of stage: freeze / seeds must travel through every stage class
+        x = base.shuffle(reshuffle=True, rng=rs)
+        st = kind[4:]
+        if st == 'unbatch':
+            return x.map(lambda v: [v, v + 100]).unbatch()
+        if st == 'filter':
+            return x.filter(lambda v: v % 3 != 0)
+        if st == 'batch_drop':
+            return x.batch(2, drop_last=True)
+        if st == 'items':
+            return x.items()
+        if st == 'concat':
+            return x.concatenate(lazy_dataset.new({f'o{i}': 100 + i for i in range(2)}))
+        if st == 'zip':
+            return x.map(lambda v: v).zip(lazy_dataset.new(list(range(n))))
+        if st == 'profiled':
+            return lazy_dataset.core.ProfilingDataset(x.map(lambda v: v))
+        if st == 'local_after':
+            return x.map(lambda v: v).shuffle(reshuffle=True, buffer_size=1, rng=np.random.RandomState(seed + 2))
+        raise ValueError(kind)
     if kind == 'apply_reshuffle':
         # the per-epoch shuffle introduced by a lazily applied function
         return base.apply(lambda d: d.shuffle(reshuffle=True, rng=rs), lazy=True)
@@ -151,14 +172,15 @@ def run(rep):
         for _ in range(nseed):
             seed = rng.randrange(1 << 30)
             kind = rng.choice(['reshuffle', 'local', 'reshuffle_map_batch', 'two', 'once', 'reshuffle_tile', 'reshuffle_self_concat',
-                               'apply_reshuffle', 'apply_reshuffle_map'])
+                               'apply_reshuffle', 'apply_reshuffle_map', 'via_unbatch', 'via_filter', 'via_batch_drop', 'via_items',
+                               'via_concat', 'via_zip', 'via_profiled', 'via_local_after'])
             n = rng.randint(1, 9)
             a = seeded_pipeline(seed, kind, n)
             b = seeded_pipeline(seed, kind, n)
             c = seeded_pipeline(seed, kind, n).copy()
             d = seeded_pipeline(seed, kind, n).prefetch(1, 2)
-            e = seeded_pipeline(seed, kind, n).prefetch(2, 2) if kind not in ('local', 'two', 'apply_reshuffle', 'apply_reshuffle_map') else None
-            fz_src = seeded_pipeline(seed, kind, n) if kind not in ('local', 'two') else None
+            e = seeded_pipeline(seed, kind, n).prefetch(2, 2) if kind not in ('local', 'two', 'apply_reshuffle', 'apply_reshuffle_map', 'via_unbatch', 'via_filter', 'via_local_after') else None
+            fz_src = seeded_pipeline(seed, kind, n) if kind not in ('local', 'two', 'via_local_after') else None
             frozen_hist = []
             for epoch in range(3):
                 outs = []
